@@ -34,7 +34,7 @@ def compose_part(ctx):
         return False
     summary = json.loads(p.stdout.strip().split("\n")[-1])
     ctx.extra["api_order"] = summary["orders"]
-    ok, log = core.lake_build(["Iox2.Gen.ApiOrder"])
+    ok, log = core.lake_build(["Iox2.Gen.ApiOrder", "Iox2.Proof.ComposePS"])   # everything Driver/ComposeSearch.lean imports
     if not ok:
         ctx.violation("compose:generated-model", "the regenerated Gen/ApiOrder.lean does not build", dict(engine="lean", log=log[-3000:]), nfi=True)
         return False
